@@ -91,8 +91,25 @@ def scenario(tier):
     return fn
 
 
+def long_history(b, sym):
+    b.mkfile("R/a.txt", 1)
+    b.mkfile("R/d/b.txt", 2)
+    n = sym.choose("generations", [9, 10, 11, 12])
+    for g in range(n):
+        r = b.run("create", root="R", h=["md5"]) if g % 3 else b.run("create", root="R", h=["md5"], sf=["R/d/b.txt"])
+        b.require(r.exit == 0, "setup-create", str(r))
+    r = b.run("info", root="R")
+    got = parse_info(b, r)[b.p("R")]
+    b.require([g for g, _ in got] == list(range(1, n + 1)), "info-generations", "%s" % [g for g, _ in got])
+    r = b.run("info", root=None, sf=["R/d/b.txt"])
+    gens = [int(GEN_RE.match(l).group(1)) for l in r.out if GEN_RE.match(l)]
+    b.require(gens == list(range(1, n + 1)), "info-sf-generation", "%s" % gens)
+
+
 def harnesses(tier):
-    return [Harness("c19-info", scenario(tier), frontier=6, budget_s=2400,
+    return [Harness("c19-long", long_history, frontier=2, budget_s=600, what="9-12 generations: info and info -sf list them in ascending numeric order",
+                    bounds={"generations": "9-12"}, outside=[]),
+            Harness("c19-info", scenario(tier), frontier=6, budget_s=2400,
                     what="histories built by real creates (flat / nested layouts, 1-3 root generations, changing formats, failed entries, -sf "
                          "generations); info on the folder and info -sf on every file (root found by upward search and given explicitly) compared "
                          "line by line with the manifests read independently; exit 30 without history",
